@@ -1,3 +1,47 @@
+// C11 — guided remediation only upgrades, and only as far as the policy allows.
+//
+// Bounded-exhaustive exploration: every (universe, manifest, vulnerability set,
+// upgrade configuration) tuple produced by verif/universe (GenFix for npm/relax
+// and Maven/override, GenUpdate for Maven/Update; full products of the parameter
+// lists printed in the rule text) is run against the real implementation, fully
+// offline (in-memory resolve client built from deps.dev schema text, in-memory
+// matcher over generated OSV records that uses the repository's own IsAffected).
+//
+// Per tuple
+//
+//	candidates  all patches of override/relax.ComputePatches (through the verif hook)
+//	applied     the patches FixVulns (MaxUpgrades=0) / Update reports, and the manifest file it wrote
+//
+// Oracle, for every PackageUpdate u of every candidate patch P, and for every u of
+// the union A of the applied patches:
+//
+//	(1) level(u.Name) != none (level computed here from the tuple, not by upgrade.Config)
+//	(2) v0 = version u.Name resolves to in manifest+(P-u), v1 = in manifest+P. Both manifests are
+//	    written by the real manifest writer and parsed/resolved by the real reader/resolver
+//	    (hook). For the applied set v1 comes from the file FixVulns/Update wrote itself.
+//	    v1 > v0 in the reference order (3 integers + optional -rc.N, written in verif/universe)
+//	(3) the most significant numeric component that differs between v0 and v1 is allowed by the
+//	    level: major anything, minor only minor/patch, patch only patch
+//	(4) a direct requirement of a package configured `none` has the same requirement string in the
+//	    written manifest as in the original
+//	(5) the tuple terminates (120 s watchdog per tuple; normal cost < 5 ms) and does not panic
+//
+// Don't-care cells (accepted whatever the implementation does; counted in the evidence):
+//   - u.Name does not resolve to exactly one version in manifest+(P-u) or manifest+P (package absent,
+//     ambiguous, resolution error): "the version it would resolve to" is undefined, only (1) is checked.
+//     Exception, Maven: a plain soft requirement `x.y.z` on a version the registry does not have
+//     denotes x.y.z itself (that is what Maven would try to fetch), so v0 = x.y.z.
+//   - versions that differ only in the pre-release tag (2.0.0-rc.1 -> 2.0.0) are below "patch" and are
+//     allowed by every level except none; they must still move upward.
+//   - packages whose resolved version changes only as a side effect (transitive dependencies of a
+//     relaxed direct dependency) are not PackageUpdates and are not constrained by the property.
+//   - which patches are proposed/chosen, Fixed/Introduced lists, errors returned by FixVulns/Update
+//     (C12/C13 territory); a patch the manifest writer refuses to apply is skipped.
+//   - IgnoreDev of Update is not exercised.
+//
+// Cause keys: <strategy>:updates-none-package, :downgrade, :no-upward-move, :exceeds-level,
+// :none-requirement-changed, :hang, :panic:<site>; Maven Update additionally
+// maven-update:downgrade-when-current-missing and maven-update:nil-newreq (known defects).
 package main
 
 import (
@@ -5,90 +49,497 @@ import (
 	"encoding/json"
 	"fmt"
 	"os"
+	"path/filepath"
+	"strings"
+	"sync/atomic"
 	"time"
 
 	"github.com/google/osv-scalibr/guidedremediation"
 	"github.com/google/osv-scalibr/guidedremediation/options"
+	"github.com/google/osv-scalibr/guidedremediation/result"
+	"verif/ev"
 	u "verif/universe"
 )
 
-func show(v any) { b, _ := json.Marshal(v); fmt.Println(string(b)) }
+const (
+	stRelax    = "npm-relax"
+	stOverride = "maven-override"
+	stUpdate   = "maven-update"
+)
+
+type finding struct{ Key, What string }
+
+type tupleOut struct {
+	findings []finding
+	patches  int // candidate + applied patches seen
+	updates  int // PackageUpdates checked
+	dontcare map[string]int
+	log      []string
+}
+
+func (o *tupleOut) dc(k string) {
+	if o.dontcare == nil {
+		o.dontcare = map[string]int{}
+	}
+	o.dontcare[k]++
+}
+func (o *tupleOut) add(key, format string, a ...any) {
+	o.findings = append(o.findings, finding{key, fmt.Sprintf(format, a...)})
+}
+func (o *tupleOut) logf(format string, a ...any) { o.log = append(o.log, fmt.Sprintf(format, a...)) }
+
+var levelName = []string{"major", "minor", "patch", "none"}
+
+func without(ups []result.PackageUpdate, i int) []result.PackageUpdate {
+	out := make([]result.PackageUpdate, 0, len(ups)-1)
+	out = append(out, ups[:i]...)
+	return append(out, ups[i+1:]...)
+}
+
+// softLiteral: Maven plain soft requirement of name in the manifest, if any.
+func softLiteral(c *u.Case, r *u.Resolved, name string) (string, bool) {
+	if c.Eco != u.Maven {
+		return "", false
+	}
+	for _, q := range u.Requirements(r.Manifest) {
+		if q.Name == name && q.Origin == "" {
+			if _, ok := u.ParseV(q.Version); ok {
+				return q.Version, true
+			}
+		}
+	}
+	return "", false
+}
+
+// checkUpdates applies the oracle to one set of package updates. full is the
+// manifest with all of ups applied (nil: materialise it here).
+func checkUpdates(st string, c *u.Case, dir string, base []byte, ups []result.PackageUpdate, full []byte, kind string, out *tupleOut) {
+	if len(ups) == 0 {
+		return
+	}
+	for _, up := range ups {
+		if c.Level(up.Name) == 3 {
+			out.add(st+":updates-none-package", "%s patch updates %s (%q -> %q) although its level is none; cfg=%v", kind, up.Name, up.VersionFrom, up.VersionTo, c.Cfg)
+		}
+	}
+	if full == nil {
+		var err error
+		full, err = c.Materialise(filepath.Join(dir, "full"), base, ups)
+		if err != nil {
+			out.dc("writer-refused-patch")
+			out.logf("%s: writer refused %v: %v", kind, ups, err)
+			return
+		}
+	}
+	rFull, err := c.ResolveBytes(filepath.Join(dir, "full"), full)
+	if err != nil {
+		out.dc("patched-manifest-unresolvable")
+		out.logf("%s: patched manifest does not resolve: %v", kind, err)
+		return
+	}
+	for i, up := range ups {
+		out.updates++
+		part, err := c.Materialise(filepath.Join(dir, "part"), base, without(ups, i))
+		if err != nil {
+			out.dc("writer-refused-partial-patch")
+			continue
+		}
+		rPart, err := c.ResolveBytes(filepath.Join(dir, "part"), part)
+		if err != nil {
+			out.dc("partial-manifest-unresolvable")
+			continue
+		}
+		v0, n0 := u.VersionOf(rPart.Graph, up.Name)
+		missing := false
+		if n0 == 0 {
+			if lit, ok := softLiteral(c, rPart, up.Name); ok {
+				v0, n0, missing = lit, 1, true
+			}
+		}
+		v1, n1 := u.VersionOf(rFull.Graph, up.Name)
+		out.logf("%s: %s %q->%q: resolves %q (n=%d, softLiteral=%v) without the update, %q (n=%d) with it; level=%s", kind, up.Name, up.VersionFrom, up.VersionTo, v0, n0, missing, v1, n1, levelName[c.Level(up.Name)])
+		if n0 != 1 {
+			out.dc("base-version-undefined")
+			continue
+		}
+		if n1 != 1 {
+			out.dc("new-version-undefined")
+			continue
+		}
+		p0, ok0 := u.ParseV(v0)
+		p1, ok1 := u.ParseV(v1)
+		if !ok0 || !ok1 {
+			out.dc("version-outside-reference-order")
+			continue
+		}
+		lvl := c.Level(up.Name)
+		desc := fmt.Sprintf("%s patch: %s requirement %q -> %q moves the resolved version %s -> %s (level %s, cfg=%v)", kind, up.Name, up.VersionFrom, up.VersionTo, v0, v1, levelName[lvl], c.Cfg)
+		switch cmp := u.CmpV(p1, p0); {
+		case cmp < 0:
+			key := st + ":downgrade"
+			if st == stUpdate && missing {
+				key = "maven-update:downgrade-when-current-missing"
+			}
+			out.add(key, "%s", desc)
+		case cmp == 0:
+			out.add(st+":no-upward-move", "%s", desc)
+		default:
+			if lvl < 3 && u.DiffLevel(p0, p1) < lvl {
+				out.add(st+":exceeds-level", "%s", desc)
+			}
+		}
+	}
+}
+
+// noneRequirementsKept: direct requirements of packages configured none keep their requirement string.
+func noneRequirementsKept(st string, c *u.Case, dir string, base, written []byte, out *tupleOut) {
+	rw, err := c.ReadWriter()
+	if err != nil {
+		return
+	}
+	read := func(sub string, data []byte) []u.ReqView {
+		p, err := c.PutManifest(filepath.Join(dir, sub), data)
+		if err != nil {
+			return nil
+		}
+		m, err := guidedremediation.VerifParseManifest(p, rw)
+		if err != nil {
+			return nil
+		}
+		return u.Requirements(m)
+	}
+	a, b := read("full", base), read("part", written)
+	if a == nil || b == nil {
+		out.dc("manifest-unreadable")
+		return
+	}
+	for _, q := range a {
+		if c.Level(q.Name) != 3 {
+			continue
+		}
+		found := false
+		for _, w := range b {
+			if w.Name == q.Name && w.Origin == q.Origin && w.Version == q.Version {
+				found = true
+			}
+		}
+		if !found {
+			out.add(st+":none-requirement-changed", "requirement %s %q (level none) is not in the written manifest any more: %v", q.Name, q.Version, b)
+		}
+	}
+}
+
+func classifyPanic(st string, p any, stack string) string {
+	site := ev.PanicSite(stack)
+	if st == stUpdate && strings.Contains(site, "suggestMavenVersion") && strings.Contains(stack, "semver.(*Version).String") {
+		return "maven-update:nil-newreq"
+	}
+	return st + ":panic:" + site
+}
+
+func runFix(st string, c *u.Case, dir string, out *tupleOut) {
+	base := c.ManifestBytes()
+	ctx := context.Background()
+	// candidates through the hook
+	var cands []result.Patch
+	p, stack := ev.Recover(func() {
+		path, err := c.PutManifest(filepath.Join(dir, "m"), base)
+		if err != nil {
+			panic(err)
+		}
+		rw, err := c.ReadWriter()
+		if err != nil {
+			panic(err)
+		}
+		m, err := guidedremediation.VerifParseManifest(path, rw)
+		if err != nil {
+			out.dc("manifest-parse-error")
+			return
+		}
+		cl, err := c.Client()
+		if err != nil {
+			panic(err)
+		}
+		vm := c.NewMatcher()
+		ro := c.RemediationOptions()
+		resolved, err := guidedremediation.VerifResolveManifest(ctx, cl, vm, m, &ro)
+		if err != nil {
+			out.dc("manifest-resolve-error")
+			out.logf("resolve: %v", err)
+			return
+		}
+		if c.Eco == u.Maven {
+			cands, err = guidedremediation.VerifOverrideComputePatches(ctx, cl, vm, resolved, &ro)
+		} else {
+			cands, err = guidedremediation.VerifRelaxComputePatches(ctx, cl, vm, resolved, &ro)
+		}
+		if err != nil {
+			out.dc("compute-patches-error")
+			out.logf("ComputePatches: %v", err)
+		}
+	})
+	if p != nil {
+		out.add(classifyPanic(st, p, stack), "ComputePatches panics: %v", p)
+		out.logf("%s", stack)
+		return
+	}
+	out.patches += len(cands)
+	for i, pt := range cands {
+		checkUpdates(st, c, dir, base, pt.PackageUpdates, nil, fmt.Sprintf("candidate#%d", i), out)
+	}
+	// applied
+	var res result.Result
+	var ferr error
+	var written []byte
+	p, stack = ev.Recover(func() {
+		path, err := c.PutManifest(filepath.Join(dir, "m"), base)
+		if err != nil {
+			panic(err)
+		}
+		o, err := c.FixOptions(path, 0)
+		if err != nil {
+			panic(err)
+		}
+		res, ferr = guidedremediation.FixVulns(o)
+		written, _ = os.ReadFile(path)
+	})
+	if p != nil {
+		out.add(classifyPanic(st, p, stack), "FixVulns panics: %v", p)
+		out.logf("%s", stack)
+		return
+	}
+	if ferr != nil {
+		out.dc("fixvulns-error")
+		out.logf("FixVulns: %v", ferr)
+		return
+	}
+	var applied []result.PackageUpdate
+	for _, pt := range res.Patches {
+		applied = append(applied, pt.PackageUpdates...)
+	}
+	out.patches += len(res.Patches)
+	out.logf("FixVulns applied %d patches: %v", len(res.Patches), applied)
+	checkUpdates(st, c, dir, base, applied, written, "applied", out)
+	if written != nil {
+		noneRequirementsKept(st, c, dir, base, written, out)
+	}
+}
+
+func runUpdate(c *u.Case, dir string, out *tupleOut) {
+	base := c.ManifestBytes()
+	var res result.Result
+	var uerr error
+	var written []byte
+	p, stack := ev.Recover(func() {
+		path, err := c.PutManifest(filepath.Join(dir, "m"), base)
+		if err != nil {
+			panic(err)
+		}
+		cl, err := c.Client()
+		if err != nil {
+			panic(err)
+		}
+		res, uerr = guidedremediation.Update(options.UpdateOptions{Manifest: path, ResolveClient: cl, UpgradeConfig: c.UpgradeConfig()})
+		written, _ = os.ReadFile(path)
+	})
+	if p != nil {
+		out.add(classifyPanic(stUpdate, p, stack), "Update panics: %v", p)
+		out.logf("%s", stack)
+		return
+	}
+	if uerr != nil {
+		out.dc("update-error")
+		out.logf("Update: %v", uerr)
+		return
+	}
+	var applied []result.PackageUpdate
+	for _, pt := range res.Patches {
+		applied = append(applied, pt.PackageUpdates...)
+	}
+	if len(applied) > 0 {
+		out.patches++
+	}
+	out.logf("Update proposes %v", applied)
+	checkUpdates(stUpdate, c, dir, base, applied, written, "applied", out)
+	if written != nil {
+		noneRequirementsKept(stUpdate, c, dir, base, written, out)
+	}
+}
+
+func runTuple(st string, c *u.Case, dir string) *tupleOut {
+	out := &tupleOut{}
+	if st == stUpdate {
+		runUpdate(c, dir, out)
+	} else {
+		runFix(st, c, dir, out)
+	}
+	return out
+}
+
+type replayData struct {
+	Strategy string `json:"strategy"`
+	Case     u.Case `json:"case"`
+}
+
+const watchdog = 120 * time.Second
+
+var scratchRoot = "/dev/shm/verif-c11"
 
 func main() {
-	dir := "/dev/shm/c11-spike"
-	defer os.RemoveAll(dir)
-	for _, eco := range []string{u.NPM, u.Maven} {
-		c := &u.Case{Eco: eco,
-			Pkgs: []u.Pkg{
-				{Name: "d1", Vers: []u.Ver{{V: "1.0.0", Deps: []u.Dep{{Name: "t1", Req: "1.0.0"}}}, {V: "1.1.0", Deps: []u.Dep{{Name: "t1", Req: "1.0.1"}}}, {V: "2.0.0", Deps: []u.Dep{{Name: "t1", Req: "2.0.0"}}}}},
-				{Name: "t1", Vers: []u.Ver{{V: "1.0.0"}, {V: "1.0.1"}, {V: "2.0.0"}}},
-			},
-			Manifest: []u.Req{{Name: "d1", Req: "1.0.0"}},
-			Vulns:    []u.Vuln{{ID: "V1", Pkg: "t1", Introduced: "0", Fixed: "1.0.1"}},
-			Cfg:      []string{"major"},
-		}
-		fmt.Print(c.SchemaText())
-		t0 := time.Now()
-		var n int
-		for i := 0; i < 200; i++ {
-			p, err := c.PutManifest(dir, c.ManifestBytes())
-			if err != nil {
-				panic(err)
-			}
-			o, err := c.FixOptions(p, 0)
-			if err != nil {
-				panic(err)
-			}
-			res, err := guidedremediation.FixVulns(o)
-			if err != nil {
-				panic(err)
-			}
-			n += len(res.Patches)
-			if i == 0 {
-				show(res)
-				b, _ := os.ReadFile(p)
-				fmt.Println(string(b))
-				rw, _ := c.ReadWriter()
-				m, err := guidedremediation.VerifParseManifest(p, rw)
-				if err != nil {
-					panic(err)
-				}
-				show(u.Requirements(m))
-				cl, _ := c.Client()
-				ro := c.RemediationOptions()
-				p2, _ := c.PutManifest(dir+"/b", c.ManifestBytes())
-				m2, _ := guidedremediation.VerifParseManifest(p2, rw)
-				rm, err := guidedremediation.VerifResolveManifest(context.Background(), cl, c.NewMatcher(), m2, &ro)
-				if err != nil {
-					panic(err)
-				}
-				var ps any
-				if eco == u.Maven {
-					ps, err = guidedremediation.VerifOverrideComputePatches(context.Background(), cl, c.NewMatcher(), rm, &ro)
-				} else {
-					ps, err = guidedremediation.VerifRelaxComputePatches(context.Background(), cl, c.NewMatcher(), rm, &ro)
-				}
-				show(ps)
-				fmt.Println(err)
-				r, err := c.ResolveBytes(dir+"/c", b)
-				fmt.Println(err)
-				fmt.Println(u.VersionOf(r.Graph, u.FullName(eco, "t1")))
-				fmt.Println(u.VersionOf(r.Graph, u.FullName(eco, "d1")))
-			}
-		}
-		fmt.Println("per FixVulns:", time.Since(t0)/200, n)
+	r := ev.Start("C11", "exploration", 4*time.Minute, 36*time.Minute)
+	scratchRoot = fmt.Sprintf("%s-%d", scratchRoot, os.Getpid())
+
+	if f := os.Getenv("VERIF_REPLAY"); f != "" {
+		code := replay(f)
+		os.RemoveAll(scratchRoot)
+		os.Exit(code)
 	}
-	// Update
-	c := &u.Case{Eco: u.Maven,
-		Pkgs:     []u.Pkg{{Name: "d1", Vers: []u.Ver{{V: "1.0.0"}, {V: "1.1.0"}, {V: "2.0.0"}}}},
-		Manifest: []u.Req{{Name: "d1", Req: "2.0.1"}},
-		Cfg:      []string{"patch"},
+
+	b := u.BoundsFor(r.Thorough())
+	var dirSeq atomic.Int64
+	dirs := make(chan string, 64)
+	newDir := func() string { return filepath.Join(scratchRoot, fmt.Sprintf("w%d", dirSeq.Add(1))) }
+	getDir := func() string {
+		select {
+		case d := <-dirs:
+			return d
+		default:
+			return newDir()
+		}
 	}
-	p, _ := c.PutManifest(dir, c.ManifestBytes())
-	cl, _ := c.Client()
-	res, err := guidedremediation.Update(options.UpdateOptions{Manifest: p, ResolveClient: cl, UpgradeConfig: c.UpgradeConfig()})
-	show(res)
-	fmt.Println(err)
-	b, _ := os.ReadFile(p)
-	fmt.Println(string(b))
+	putDir := func(d string) {
+		select {
+		case dirs <- d:
+		default:
+		}
+	}
+
+	dcTotals := map[string]*atomic.Int64{}
+	for _, k := range []string{"writer-refused-patch", "patched-manifest-unresolvable", "writer-refused-partial-patch", "partial-manifest-unresolvable", "base-version-undefined", "new-version-undefined", "version-outside-reference-order", "manifest-unreadable", "manifest-parse-error", "manifest-resolve-error", "compute-patches-error", "fixvulns-error", "update-error"} {
+		dcTotals[k] = &atomic.Int64{}
+	}
+	perStrategy := map[string]map[string]int64{}
+	var updatesChecked atomic.Int64
+	exhaustive := true
+
+	runAll := func(st string, gen func(emit func(*u.Case))) {
+		var tuples, withPatch atomic.Int64
+		const chunkSize = 1 << 16
+		chunk := make([]u.Case, 0, chunkSize)
+		base := 0
+		flush := func() {
+			if len(chunk) == 0 {
+				return
+			}
+			if r.Expired() {
+				exhaustive = false
+				r.Cap("deadline: %s stopped after %d tuples", st, tuples.Load())
+				base += len(chunk)
+				chunk = chunk[:0]
+				return
+			}
+			cur := chunk
+			off := base
+			done := r.ParallelFor(len(cur), func(i int) {
+				c := &cur[i]
+				dir := getDir()
+				var out *tupleOut
+				ok := u.Watchdog(watchdog, func() { out = runTuple(st, c, dir) })
+				r.Evals.Add(1)
+				tuples.Add(1)
+				if !ok {
+					r.Violation(st+":hang", fmt.Sprintf("tuple #%d did not terminate within %v", off+i, watchdog), replayData{st, *c})
+					return // the scratch dir stays with the abandoned goroutine
+				}
+				putDir(dir)
+				updatesChecked.Add(int64(out.updates))
+				for k, n := range out.dontcare {
+					if a, ok := dcTotals[k]; ok {
+						a.Add(int64(n))
+					}
+				}
+				if out.patches > 0 {
+					withPatch.Add(1)
+					r.Nontrivial.Add(1) // tuples are pairwise distinct by construction
+					if off+i < 1<<20 && r.SampleN() < 6 && (withPatch.Load()%1500) == 1 {
+						r.Sample(map[string]any{"strategy": st, "case": c, "observed": out.log})
+					}
+				}
+				for _, f := range out.findings {
+					r.Violation(f.Key, fmt.Sprintf("[%s tuple #%d] %s", st, off+i, f.What), replayData{st, *c})
+				}
+			})
+			if done < len(cur) {
+				exhaustive = false
+			}
+			base += len(chunk)
+			chunk = chunk[:0]
+		}
+		gen(func(c *u.Case) {
+			chunk = append(chunk, *c)
+			if len(chunk) == chunkSize {
+				flush()
+			}
+		})
+		flush()
+		perStrategy[st] = map[string]int64{"generated": int64(base), "executed": tuples.Load(), "with_patch": withPatch.Load()}
+	}
+
+	runAll(stUpdate, func(emit func(*u.Case)) { b.GenUpdate(emit) })
+	runAll(stOverride, func(emit func(*u.Case)) { b.GenFix(u.Maven, emit) })
+	runAll(stRelax, func(emit func(*u.Case)) { b.GenFix(u.NPM, emit) })
+
+	dc := map[string]int64{}
+	for k, a := range dcTotals {
+		if n := a.Load(); n > 0 {
+			dc[k] = n
+		}
+	}
+	r.Set("tuples_per_strategy", perStrategy)
+	r.Set("package_updates_checked", updatesChecked.Load())
+	r.Set("dont_care_cells_hit", dc)
+	r.Assume("the in-memory deps.dev LocalClient and the npm/Maven resolvers of deps.dev/util/resolve are the resolution semantics (the same ones the repository's own tests use)")
+	r.Assume("vulnerability matching uses the repository's IsAffected (decided separately by C18)")
+	rule := "For every tuple (universe, manifest, vulnerability set, upgrade config) of the bounded product below, for npm/relax and Maven/override (all candidate patches of ComputePatches and the patches FixVulns applies) and Maven/Update: every PackageUpdate u of a patch P has level(u.Name) != none; with v0 = version u.Name resolves to in manifest+(P-u) and v1 = in manifest+P (real writer, reader and resolver), v1 > v0 in the reference order and the most significant differing component of v0->v1 is allowed by the level (major: any, minor: minor/patch, patch: patch); direct requirements of `none` packages are textually unchanged in the written manifest; no tuple panics or runs longer than 120 s. " +
+		"Bound (" + r.Tier + "): " + b.Describe() + "; shapes solo, chainT, chainD, diamondT, diamondD, two, chain2 (FixVulns) and update-solo, update-pair (Update) as defined in verif/universe/gen.go, each the full product of its lists, enumerated simplest first."
+	os.RemoveAll(scratchRoot)
+	r.Finish(rule, exhaustive)
+}
+
+func replay(file string) int {
+	b, err := os.ReadFile(file)
+	if err != nil {
+		fmt.Fprintln(os.Stderr, err)
+		return 3
+	}
+	var rec struct {
+		Key    string     `json:"key"`
+		What   string     `json:"what"`
+		Replay replayData `json:"replay"`
+	}
+	if err := json.Unmarshal(b, &rec); err != nil {
+		fmt.Fprintln(os.Stderr, err)
+		return 3
+	}
+	c := &rec.Replay.Case
+	fmt.Printf("replaying %s tuple (recorded key %s)\nregistry:\n%s\nmanifest:\n%s\nvulns: %+v\ncfg: %v\n", rec.Replay.Strategy, rec.Key, c.SchemaText(), c.ManifestBytes(), c.Vulns, c.Cfg)
+	var out *tupleOut
+	if !u.Watchdog(watchdog, func() { out = runTuple(rec.Replay.Strategy, c, filepath.Join(scratchRoot, "replay")) }) {
+		fmt.Println("HANG: tuple did not terminate within", watchdog)
+		return 1
+	}
+	for _, l := range out.log {
+		fmt.Println("  ", l)
+	}
+	for k, n := range out.dontcare {
+		fmt.Printf("   don't-care cell %s x%d\n", k, n)
+	}
+	if len(out.findings) == 0 {
+		fmt.Println("replay: property holds on this tuple")
+		return 0
+	}
+	for _, f := range out.findings {
+		fmt.Printf("VIOLATION key=%s: %s\n", f.Key, f.What)
+	}
+	return 1
 }
